@@ -4,14 +4,15 @@
 // driver glue (request construction, transport recorder). Everything is prefixed vfC04.
 //
 // The model is written from the property statement, not from pool.go/loadbalance.go:
-//   current list  = static list                                   (pool without discovery)
-//                 = instances of the last report that carry at least one of the pool's serverTags,
-//                   or the static list when no instance qualifies  (pool with discovery)
-//   a selection may fail for lack of a server only when the current list is empty;
-//   roundRobin: after k selections on an unchanged list every member was chosen floor(k/n) or ceil(k/n) times;
-//   ipHash/headerHash: equal key => equal server while the list is unchanged;
-//   weightedRandom: never a zero-weight member when some weight is positive;
-//   never a panic, never an error result.
+//
+//	current list  = static list                                   (pool without discovery)
+//	              = instances of the last report that carry at least one of the pool's serverTags,
+//	                or the static list when no instance qualifies  (pool with discovery)
+//	a selection may fail for lack of a server only when the current list is empty;
+//	roundRobin: after k selections on an unchanged list every member was chosen floor(k/n) or ceil(k/n) times;
+//	ipHash/headerHash: equal key => equal server while the list is unchanged;
+//	weightedRandom: never a zero-weight member when some weight is positive;
+//	never a panic, never an error result.
 package proxy
 
 import (
@@ -488,8 +489,15 @@ func vfC04InstID(in vfC04Inst) int {
 // weights (discovery does not go through Validate: all-zero, all-positive and mixed weights occur).
 // Returns the report and how it was derived.
 func vfC04GenReport(rt *rapid.T, p *vfC04Pool, idx int, prev *vfC04Report, nonEmptyQualifying bool) (vfC04Report, string) {
+	return vfC04GenReportD(rt, p, idx, prev, nonEmptyQualifying, "")
+}
+
+// vfC04GenReportD: as vfC04GenReport; force (if not "" and a previous report exists) fixes the derivation.
+func vfC04GenReportD(rt *rapid.T, p *vfC04Pool, idx int, prev *vfC04Report, nonEmptyQualifying bool, force string) (vfC04Report, string) {
 	deriv := "fresh"
-	if prev != nil && len(prev.insts) > 0 {
+	if prev != nil && len(prev.insts) > 0 && force != "" {
+		deriv = force
+	} else if prev != nil && len(prev.insts) > 0 {
 		deriv = rapid.SampledFrom([]string{"fresh", "fresh", "fresh", "reweight", "reweight", "reweight", "retag", "retag",
 			"same", "subset", "superset", "mix", "mix"}).Draw(rt, "rep-derivation")
 	}
